@@ -76,13 +76,18 @@ ClosureT(g, tg, clean, S, n) ==
    other  a cause of failure the property does NOT speak about is possible (extends placement,
           one file used in two roles, invalid paths, statement order): conservative
           over-approximation, only used to decide when the CLASS of the error is demanded to be
-          "not found"                                                                          *)
+          "not found" and when a failure has no cause at all
+   miss   the reachable references that resolve, inside the root, to a file that does not exist
+          (`render p default e` tolerates that, so a renderd never counts)
+   ent    the entry file exists                                                                 *)
 FirstOfEntry(g) == IF \E i \in 1..Len(g.refs) : g.refs[i].o = g.entry
                    THEN CHOOSE i \in 1..Len(g.refs) : g.refs[i].o = g.entry /\ \A j \in 1..(i - 1) : g.refs[j].o # g.entry ELSE 0
 Facts3(g, tg, clean, reach, live, first) ==
   [reach |-> reach,
    cyc |-> \E f \in reach : f \in ClosureT(g, tg, clean, SuccT(g, tg, clean, {f}), Cardinality(g.files)),
    esc |-> {i \in live : tg[i] = ESC /\ g.refs[i].k # "renderd"},
+   miss |-> {i \in live : tg[i] # ESC /\ tg[i] \notin g.files /\ g.refs[i].k # "renderd"},
+   ent |-> g.entry \in g.files,
    other |-> \/ \E f \in reach : f \notin clean
              \/ \E i \in live : g.refs[i].k = "extends" /\ i # first
              \/ \E i, j \in live : tg[i] = tg[j] /\ ~SameRole(g.refs[i].k, g.refs[j].k)
@@ -123,28 +128,51 @@ OpenClause(g, opens) ==
   ELSE IF ReadTwice(opens) # {} THEN "read-once"
   ELSE ""
 \* ... and about the outcome
-OutcomeOf(F, oc) ==
+\* f was loaded: some Open(f) succeeded
+Loaded(opens, f) == \E i \in 1..Len(opens) : opens[i].n = f /\ opens[i].ok
+NotLoaded(F, opens) == {f \in F.reach : ~Loaded(opens, f)}
+OutcomeOf(F, opens, oc) ==
   IF F.cyc /\ ~IsError(oc) THEN "cycle-is-error"
   ELSE IF F.esc # {} /\ ~IsError(oc) THEN "escape-is-error"
   \* the error CLASS is demanded only when leaving the root / a missing file is the one thing
   \* wrong with the graph (otherwise which error comes first is the implementation's business)
   ELSE IF F.esc # {} /\ ~F.cyc /\ ~F.other /\ oc # "notexist" THEN "escape-not-found-class"
+  (* "every file opened is named by the path obtained by resolving the referenced path against
+     the referencing file's directory", read per reference (the reading under which the clause
+     says something about WHICH file a reference loads, not only that every opened name could be
+     explained by some reference): a build that succeeded has resolved every reference of every
+     file it loaded, so the file Rooted(dir(f), p) exists (unless the reference tolerates a
+     missing file) and was opened.  A build that succeeds without having opened the resolved
+     target of one of its references has taken that reference to some other file.              *)
+  ELSE IF oc = "ok" /\ (F.miss # {} \/ NotLoaded(F, opens) # {}) THEN "ref-target-loaded"
+  (* ... and the other direction of the same reading: when every reference of the graph resolves
+     inside the root to an existing file, there is no cycle, and none of the causes of failure
+     the property is silent about is possible, nothing can fail as "not found" or as a cycle -
+     a build that fails all the same has resolved some reference to another name.  (Which error
+     it reports is not demanded.)                                                               *)
+  ELSE IF IsError(oc) /\ F.ent /\ ~F.cyc /\ F.esc = {} /\ F.miss = {} /\ ~F.other THEN "fails-without-cause"
   ELSE ""
-OutcomeClause(g, oc) == OutcomeOf(Facts(g), oc)
-OpenThenOutcome(c, g, oc) == IF c # "" THEN c ELSE OutcomeClause(g, oc)
+OutcomeClause(g, opens, oc) == OutcomeOf(Facts(g), opens, oc)
+OpenThenOutcome(c, g, opens, oc) == IF c # "" THEN c ELSE OutcomeClause(g, opens, oc)
 Clause(g, opens, oc, term) ==
   IF ~term THEN "terminates"                                  \* ... rather than recursing / hangs
-  ELSE OpenThenOutcome(OpenClause(g, opens), g, oc)
+  ELSE OpenThenOutcome(OpenClause(g, opens), g, opens, oc)
 \* detail for the signature: what identifies the root cause
 FirstBadOpen(opens, Bad(_)) == opens[CHOOSE i \in 1..Len(opens) : Bad(i) /\ \A j \in 1..(i - 1) : ~Bad(j)].n
 MinOf(E) == CHOOSE i \in E : \A j \in E : i <= j
 RefSig(g, i) == <<g.refs[i].k>> \o g.refs[i].p
+\* the kind and path of the first reference whose resolved target is missing or was not opened
+UnloadedSet(g, F, opens) == {i \in 1..Len(g.refs) : g.refs[i].o \in F.reach /\
+                               (i \in F.miss \/ (Target(g, i) \in F.reach /\ ~Loaded(opens, Target(g, i))))}
+UnloadedSigOf(g, E) == IF E = {} THEN <<"entry">> ELSE RefSig(g, MinOf(E))
+UnloadedSig(g, F, opens) == UnloadedSigOf(g, UnloadedSet(g, F, opens))
 DetailOf(c, g, opens, oc) ==
   IF c = "open-valid-path" THEN FirstBadOpen(opens, LAMBDA i : ~ValidPath(opens[i].n))
   ELSE IF c = "open-provenance" THEN FirstBadOpen(opens, LAMBDA i : ~Provenance(g, opens, i))
   ELSE IF c = "read-once" THEN opens[MinOf(ReadTwice(opens))].n
   ELSE IF c \in {"escape-is-error", "escape-not-found-class"} THEN RefSig(g, MinOf(Facts(g).esc))
-  ELSE IF c = "cycle-is-error" THEN <<oc>>
+  ELSE IF c \in {"cycle-is-error", "fails-without-cause"} THEN <<oc>>
+  ELSE IF c = "ref-target-loaded" THEN UnloadedSig(g, Facts(g), opens)
   ELSE <<>>
 Detail(g, opens, oc, term) == DetailOf(Clause(g, opens, oc, term), g, opens, oc)
 
